@@ -126,6 +126,8 @@ def token(tok, pos, cfg):
         return host, dict(kind='req', fc=15, address=1, count=3, byte_count=1, bits=[True, False, True])
     if tok == 'I':
         return host, dict(kind='req', fc=0x2B, read_code=1, object_id=0)
+    if tok == 'S':
+        return host, b'\x03\x00'          # a frame whose PDU is shorter than its function's layout: handling it raises
     if tok == 'I0':
         return host, dict(kind='req', fc=0x2B, read_code=0, object_id=0)     # a read code no category is defined for
     raise ValueError(tok)
